@@ -35,8 +35,9 @@ def run(ctx):
         "traces_validated_against_impl": len(rows), "evaluations": sum(len(c["evs"]) for c in rows),
         "distinct_nontrivial": sum(1 for c in rows if any(e["e"] == "u" and (e["err"] or e["n"] < e["req"]) for e in c["evs"])),
         "rule": "runs of 1-30 (every fifth: 200-500) Write/WriteString calls over scripted wrapped writers (full / short / failing with "
-                "partial bytes, with and without io.StringWriter) against consumers absent-until-Close, fast, slow, late; stalls judged "
-                "on stable states; non-trivial = runs with at least one short or failed underlying write",
+                "partial bytes, with and without io.StringWriter) against consumers absent-until-Close, fast, slow, late (each asking "
+                "Status() anew for every receive); two tight runs of 30000 tiny writes against a consumer in a tight loop; one run moving "
+                "5 GiB in 64 MiB writes (counts in MiB); stalls judged on stable states; non-trivial = runs with at least one short or failed underlying write",
         "exhaustive": False, "values_received": sum(1 for c in rows for e in c["evs"] if e["e"] == "r"),
     })
     ctx.sample(rows[1]["evs"][:10])
